@@ -1783,8 +1783,8 @@ func (w *transformingWriter) Close() error {
 		if err := w.flushMessage(); err != nil {
 			w.rw.reportError(err)
 		}
-	} else if w.buffer != nil && w.buffer.Len() > 0 {
-		// Unfinished body!
+	} else if w.buffer != nil && (w.buffer.Len() > 0 || (!w.writingEnvelope && w.expectingBytes > 0)) {
+		// Unfinished body! (Possibly an envelope without a single byte of its payload.)
 		if w.writingEnvelope {
 			w.rw.reportError(fmt.Errorf("handler only wrote %d out of %d bytes of message envelope", w.buffer.Len(), envelopeLen))
 		} else {
